@@ -1205,18 +1205,34 @@ func (z *zoneEngine) analyse(fn *ssa.Function) {
 			}
 		}
 	})
-	for i, a := range loads {
-		if _, done := z.canon[a]; done {
-			continue
-		}
-		for _, b := range loads[i+1:] {
-			if _, done := z.canon[b]; done {
-				continue
+	rep := func(v ssa.Value) ssa.Value {
+		for {
+			c, ok := z.canon[v]
+			if !ok {
+				return v
 			}
-			if instrDominates(a, b) && sameMemValue(a, b) {
-				z.canon[b] = a
+			v = c
+		}
+	}
+	for changed := true; changed; {
+		changed = false
+		for _, a := range loads {
+			for _, b := range loads {
+				if a == b || rep(a) == rep(b) {
+					continue
+				}
+				if _, done := z.canon[b]; done {
+					continue
+				}
+				if instrDominates(a, b) && sameMemValue(a, b) {
+					z.canon[b] = rep(a)
+					changed = true
+				}
 			}
 		}
+	}
+	for k := range z.canon {
+		z.canon[k] = rep(k)
 	}
 	entry := newZState()
 	// parameter lengths are non-negative (implicit); contract requires
